@@ -43,4 +43,8 @@ CHECKS = {
         text='Inductive single-step bounded model checking of clear_config on the real code: the pre-state is any combination of 7 history ingredients (bindings, import, operative record, finalized, singleton, failed parse, failed bind) x 5 constant sets incl. interactive-mode definitions with overlapping suffixes; after clear_config the config string, operative string, lock, queries, probe calls, singleton cache and constants equal the pristine baseline.',
         note=X_NOTE,
         technique='CrossHair/z3 exhaustive path exploration of clear_config from symbolic pre-states built through the public API'),
+    'C02': dict(
+        text='Bounded model checking of the real statement/value parser through a tokenizer seam: the value is a lazily chosen symbolic token stream of at most 4 tokens over a 19-kind (quick) / 36-kind (thorough) vocabulary, so every parser-distinguishable sequence within the bound is one path and the path tree is exhausted; accepted values must equal (value and type) the reference grammar of the property and ast.literal_eval; the parser may reject only dead prefixes / non-sentences, with a Syntax/Token error.',
+        note=X_NOTE + ' The C tokenizer is an environment stub with a checked contract: every finished path is re-tokenised by the real tokenizer and re-parsed through the real tokenizer-driven parse_config and must agree (a disagreement is an infrastructure error, not a finding).',
+        technique='CrossHair/z3 path exploration of ConfigParser.parse_statement/parse_value over a symbolic token stream (tokenizer stub), differential oracle = literal grammar + ast.literal_eval'),
 }
